@@ -35,6 +35,9 @@ unsigned char nondet_uchar();
 extern "C" void harness() {
   std::string content;
   for (int i = 0; i < L; i++) content.push_back((char)nondet_uchar());      /* any bytes, NUL included; std::string keeps a NUL at [size] */
+  /* poisoned slack: the model string has spare capacity behind the terminator, a real std::string need not.  Non-NUL filler makes a
+     scanner that runs past the sentinel continue to the end of the array, where the bounds check fails. */
+  for (size_t i = content.size() + 1; i <= VF_STR_CAP; i++) content.d_[i] = 'a';
   DepfileParser p;
   std::string err;
   bool ok = p.Parse(&content, &err);
@@ -114,7 +117,7 @@ def _build_small(unit, L, mutant):
 
 
 B = {
-    "quick": {"depfile": [1, 2, 3], "small": [3, 5], "canon": [3, 5, 6], "json": [2, 3], "escape": [2, 3], "deps_T": [4, 8], "deps_layout": [0, 1]},
+    "quick": {"depfile": [1, 2, 3], "small": [3, 5], "canon": [3, 5, 6], "json": [2, 3], "escape": [2, 3], "deps_T": [4, 8], "deps_layout": [0, 1, 2]},
     "thorough": {"depfile": [1, 2, 3, 4], "small": [4, 7], "canon": [4, 6, 8], "json": [3, 4], "escape": [3, 5], "deps_T": [4, 8, 9, 12], "deps_layout": [0, 1, 2, 3, 4]},
 }
 
